@@ -9,6 +9,13 @@ CFG = {'streams': [{'name': 'C05p',
                             '9 = Ok vs Err, 10 = parsed AST is not the intended one (not used in this stream), 11 = scan patterns differ, '
                             '12 = error payload differs'}],
  'rule': 'see C07.py, stream C05p: hand-written edge cases for every ParseError variant plus valid texts with 1-3 token-/character-level mutations',
- 'explanation': 'TODO-COQ',
+ 'explanation': 'PARSER PART ONLY. Theorems in Props/C05parse.v (not Props/C05.v, which the execution part will provide): parse_total - for every '
+                'text, with externals that answer (OracleTotal: tree-sitter keeps the appended full-match capture of every query it accepts and '
+                'compiles the merged source), parse X (S (length text)) text is a file or a ParseError: no panic site, no fuel exhaustion (linear '
+                'bound); parse_never_out_of_fuel - without any assumption: never out of fuel, and the only reachable panic sites are 7 (.expect on '
+                'the full-match capture index) and 8 (merged Query::new(..).unwrap()), both decided by tree-sitter; all six self.skip().unwrap() '
+                'sites are unreachable; integer / $n overflow is an error, not a panic (also C07 integer_literal_overflow). Correspondence '
+                'stream C05p: see C07.py.',
  'assumptions': ['see C07.py'],
- 'partial': ['TODO-COQ']}
+ 'partial': ['only the parser part of C05 is stated here (Props/C05parse.v); checker, execution and error rendering are not covered by this file',
+             'real stack depth is not modelled: the model recursion is bounded by fuel; nesting up to 64 is exercised dynamically by stream C05p']}
